@@ -40,7 +40,7 @@ func genC19(r *Rng, tier string, idx int) *Plan {
 		// (every keyspace step, store-lock acquisition and bookkeeping goroutine scheduled by the dice) under a
 		// memory limit; the figure is checked once everything has quiesced
 		p.Profile = "conc"
-		p.SKnobs["policy"] = Pick(r, []string{"allkeys-lfu", "allkeys-random", "allkeys-lru", "volatile-lru"})
+		p.SKnobs["policy"] = Pick(r, []string{"allkeys-lfu", "allkeys-lru", "allkeys-lru", "volatile-lru"})
 		p.Knobs["limit"] = int64(r.Range(120, 600))
 		p.Dice = drawDice(r, 192)
 	}
@@ -48,7 +48,7 @@ func genC19(r *Rng, tier string, idx int) *Plan {
 	if p.Profile == "conc" {
 		// few keys, mostly collections that grow and shrink in place: the usage figure then changes in the
 		// re-measuring pass after the handler, the step that races with the eviction bookkeeping
-		g = &GenCfg{Keys: []string{"k1", "k2"}, NowMs: 946684800000, Writes: true, Families: map[string]bool{"set": true, "zset": true, "hash": true, "list": true}}
+		g = &GenCfg{Keys: []string{"k1", "k2"}, NowMs: 946684800000, Writes: true, NoRandom: true, Families: map[string]bool{"set": true, "zset": true, "hash": true, "list": true}}
 	}
 	n := r.Range(5, 30)
 	if tier == "thorough" {
@@ -62,7 +62,7 @@ func genC19(r *Rng, tier string, idx int) *Plan {
 		if p.Profile == "conc" && r.Chance(0.8) {
 			// a pair: a write (often growing or shrinking a collection in place) next to a command of another
 			// connection that touches keys (and so triggers the bookkeeping that may evict)
-			gr := &GenCfg{Keys: g.Keys, NowMs: g.NowMs}
+			gr := &GenCfg{Keys: g.Keys, NowMs: g.NowMs, NoRandom: true}
 			p.Ops = append(p.Ops, Op{Kind: "pairA", Args: g.Cmd(r), N: int64(r.Intn(int(p.Knobs["dbs"])))},
 				Op{Kind: "pairB", Args: gr.Cmd(r), N: int64(r.Intn(int(p.Knobs["dbs"])))})
 			continue
@@ -82,6 +82,7 @@ func runC19(t *testing.T, p *Plan) *Outcome {
 	}
 	br := RunBubble(t, func() {
 		s := NewSim()
+		s.logOn = p.Profile == "conc"
 		s.install()
 		defer s.uninstall()
 		cfg := BaseConfig
@@ -195,6 +196,8 @@ func runC19(t *testing.T, p *Plan) *Outcome {
 			check(i, opClass(name))
 		}
 		o.Stats = s.Stats
+		o.Log = s.Log
+		o.Sched = s.schedHash
 	})
 	if br.panicVal != nil && o.Sig == "" {
 		o.Sig = "C19/panic/" + topRepoFrame(br.stack)
